@@ -66,13 +66,14 @@ Theorem C06_pool_exclusive : forall s, preachable s ->
 Proof. exact pool_lemma. Qed.
 Print Assumptions C06_pool_exclusive.
 
-(* what the translator read off the current source (all loaders, generic and monomorphised): the protocol the
+(* what the translator read off the current source (all loaders, generic and monomorphised; every sync.Pool user returns an object only after its last use — the code side of the contract C06_pool_exclusive assumes): the protocol the
    model is a model of.  Breaks when the code changes shape. *)
 Theorem C06_src_facts :
   no_inplace_write = true /\ store_fresh = true /\ store_last = true /\ recheck_after_lock = true /\
   lock_balanced = true /\ no_foreign_call_under_lock = true /\ store_sites_only_loaders = true /\
   entry_keyed = true /\ init_double_checked = true /\ init_flag_store_last = true /\
-  init_unlock_deferred = true /\ inited_writers_ok = true /\ find_cmp_lt = true /\ find_final_eq = true /\
+  init_unlock_deferred = true /\ inited_writers_ok = true /\
+  pool_put_after_last_use = true /\ 4 <= pool_put_sites /\ find_cmp_lt = true /\ find_final_eq = true /\
   3 <= loaders_checked /\ loaders_checked = finders_checked /\
   find_shift = 1 /\ find_lo_inc = 1 /\ ins_len_inc = 1 /\ ins_hi_dst = 1 /\ ins_hi_src = 0 /\ ins_lo_dst = 0 /\ ins_set = 0.
 Proof. exact src_facts_lemma. Qed.
